@@ -32,7 +32,7 @@ CONFIG = dict(
                "the consumer's take / run.iter ops carry only what the virtual clock reads (now= ns since the case began) and the argument the case's mailbox was produced with (reset b=: "
                "mailbox.Producer(0|1|2|3|5|10|20)); the timed model FineT computes cost = now - beginTime, the budget Producer(b) means (0 = 10 ms) and from them pause / Gosched branch / carry on — "
                "an independent prediction of what the real producer.go + run() do; half of the cases run on a clock that advances between any two granted steps (tick 1 ns .. 300 us), handlers take 0/3/12/25 ms; "
-               "the yield point uq.empty (white-box shim around the user queue, overlay) parks the consumer between an EMPTY Pop of the user queue and run()'s return, so posters are "
+               "the yield point uq.empty (a wrapper around the user queue, installed by the harness BY TYPE through reflection - no overlay, no unexported name) parks the consumer between an EMPTY Pop of the user queue and run()'s return, so posters are "
                "scheduled inside that window too (FineT's ret / retEmpty); "
                "the property predicate runs on the implementation's own trace (incl.: at most one run exists, what is escalated is the message just invoked, the case reaches quiescence "
                "within the controller's step limit). "
@@ -72,8 +72,9 @@ CONFIG = dict(
                "that the real clock advances by less than the budget between the take and the first iteration is assumed, not modelled; a NEGATIVE Producer argument (int64) gives a negative budget, every "
                "iteration pauses — outside the model (budgets are Nat) and outside the generator; "
                "goring.Pop's lock-free Empty() pre-check is proved sound against interleaved atomic pushes (ring_pop_precheck_sound) at the level of the ring model, not driven at that granularity; "
-               "the dispatcher is the single-consumer scheDisp (one goroutine runs scheduled functions in turn). The Go scheduler itself is replaced by the controller.",
-    go_flags=["-overlay=/verif/harness/c09/overlay/overlay.json"],
+               "the dispatcher is the single-consumer scheDisp (one goroutine runs scheduled functions in turn). The Go scheduler itself is replaced by the controller. "
+               "Tie to the code: yield points / VerifState are the verif-tagged hooks committed in /repo; the only other reach into the mailbox is the by-type wrapper around its user queue "
+               "(uq.empty), which names no unexported identifier and falls back to a stutter step when the field cannot be found (whitebox=unavailable).",
     lean_targets=["Cell2v.Props.C09", "Cell2v.Props.C09X", "Cell2v.Props.C09T", "Cell2v.Props.C09Ring", "Cell2v.Props.C09Mpsc", "Cell2v.Props.C09Sched", "modeld_c09"],
     driver="modeld_c09",
     driver_root="Cell2v.Driver.C09",
@@ -136,8 +137,13 @@ CONFIG = dict(
         "hand-written models lean/Cell2v/Model/Mailbox.lean (Abs + Fine), lean/Cell2v/Model/MailboxX.lean (FineX = Fine + throughput counter + panicking handlers + "
         "MaxMsgNumToSmooth branch) and lean/Cell2v/Model/MailboxT.lean (FineT = FineX + clock, beginTime, Producer's budget, the way out of run() after an empty user Pop) tied to "
         "actorex/mailbox/{mailbox,producer}.go by step-by-step replay (harness/c09 + modeld_c09 replays FineT)",
-        "white-box shim harness/c09/overlay/userqueue_verif.go (mapped into package actorex/mailbox with `go test -overlay`, build tag verif; nothing under /repo is modified; add-only): "
-        "wraps the unexported user queue so that an EMPTY Pop yields at \"uq.empty\" before its answer reaches run()",
+        "no white-box shim / overlay any more: the harness is an external package that names only exported identifiers of actorex/mailbox (Producer, SmoothFrameMailbox, "
+        "PostUserMessage, PostSystemMessage, RegisterHandlers) and the committed hook API (VerifYield, VerifState); harness/c09/userqueue_test.go finds the user queue of a mailbox built by "
+        "mailbox.Producer BY TYPE (reflect + unsafe: the one interface-typed field of SmoothFrameMailbox with a Pop method that a {Push(interface{}); Pop() interface{}} value satisfies) and "
+        "wraps the value found there so that an EMPTY Pop yields at \"uq.empty\" (through mailbox.VerifYield) before its answer reaches run(); trusted: that this field is the queue run() pops "
+        "user messages from (otherwise no uq.empty step ever appears and the model's ret point is never matched: the run fails, it cannot pass silently); if no such field exists the harness "
+        "still builds and runs in a degraded mode (histogram whitebox=unavailable): the uq.empty step is emitted as a stutter right after the empty Pop and other goroutines are not scheduled "
+        "inside that window (C09-ind7-m1-like defects are then seen only if they show at the committed yield points)",
         "build-tag hook b43fb0c (vy yield points, VerifState) — add-only, empty when the tag is off",
         "build-tag hook H2 (harness/c09/overlay-mpsc/h2.patch: vy(\"mp.swap\"), vy(\"mp.link\"), vy(\"mp.pop\") in actorex/queue/mpsc, VerifYield) — add-only, empty when the tag is off; committed in /repo as 3b9fc55",
         "go1.26.8 testing/synctest for 'all goroutines parked' detection and virtual time",
